@@ -505,3 +505,96 @@ def _source_place(body, op):
 def json_key(x):
     import json as _json
     return _json.dumps(x, sort_keys=True)
+
+
+# ---------------------------------------------------------------------------------------------------------------
+# provided methods of the CPU bus: the CPU's bus traces (C01/C03) are extracted at the level of the Z80Bus *trait*;
+# what they mean for the machine is what the controller's implementation of the REQUIRED methods does (C04-C07).
+# That composition is valid only while the controller leaves the PROVIDED methods (read, write, read_word,
+# write_word, wait_loop, ...) to the trait, or overrides them with the same sequence of required-method calls.
+def provided_overrides(chk, prog, names):
+    """T-SIB: every provided Z80Bus method the controller overrides performs, on each of its paths, exactly the
+    sequence of bus-method calls (callee, arguments, and the value returned) of the trait's provided body."""
+    from zx.walk import Walker as _W, Ref as _Ref, EffectResult as _ER
+    chk.rule("T-SIB", "an override of a provided Z80Bus method by ZXController makes the same bus-method calls as the trait's provided body on every path")
+    TR = "rustzx_z80::bus::Z80Bus::"
+    ims = [im for im in prog.impls if im.get("trait") == "rustzx_z80::bus::Z80Bus" and im["self_ty"][0] == "adt" and im["self_ty"][1] == names.CTL]
+    if len(ims) != 1:
+        chk.undecided_("T-SIB/Z80Bus/impl", "ZXController's Z80Bus impl not found uniquely (%d)" % len(ims))
+        return
+    items = ims[0]["items"]
+    provided = sorted(p for p in prog.fns if p.startswith(TR) and "::{" not in p[len(TR):])
+    chk.count("bus-provided-methods", len(provided))
+    chk.floor("bus-provided-methods", 6)
+    overridden = [p for p in provided if p in items]
+    H = ("param", "H", 0)
+    self_ty = ims[0]["self_ty"]
+    # bus cycles are observed at the REQUIRED methods (as the controller implements them); provided methods called on the
+    # way are interpreted - the trait's body, or the controller's override where there is one - in both explorations
+    busfns = set(i for t, i in items.items() if t not in provided) | set(TR + t[len(TR):] for t in items if t not in provided)
+
+    def explore(path, target_trait_path, mname):
+        w = _W(prog)
+        w.opaque_paths |= busfns
+
+        def hook(w_, st, cp, a, d, wh):
+            if cp in busfns:
+                k = len([e for e in st.trace if e.path in busfns])
+                fn_ = prog.fns.get(cp)
+                ret = fn_.T[fn_.body["locals"][0]] if fn_ is not None else None
+                if ret and ret[0] == "int":
+                    return _ER(tm.sym("bus#%d" % k, ret[1]), havoc=False)
+                if ret and ret[0] == "bool":
+                    return _ER(tm.sym("bus#%d" % k, 1), havoc=False)
+                return _ER(None, havoc=False)
+            return None
+        w.effect_hook = hook
+        st = controller_state(w, prog, names, mname)
+        fn = prog.fn(path)
+        # argument symbols by declared type
+        args = [_Ref(CTL, (), True)]
+        for i in range(2, fn.body["argc"] + 1):
+            ty = fn.T[fn.body["locals"][i]]
+            bits = ty[1] if ty[0] == "int" else 1
+            args.append(tm.sym("arg%d" % (i - 1), bits))
+        genv = dict(GENV)
+        genv["Self"] = self_ty
+        return w.run(fn, args, genv=genv, state=st)
+
+    def norm(p):
+        # a call reaches either the trait item or the controller's implementation of it: same bus cycle
+        for t, i in items.items():
+            if p == i:
+                return t
+        return p
+
+    def trace_of(r):
+        return [(norm(e.path), tuple(e.args[1:])) for e in r.trace if e.path in busfns]
+    for tp in overridden:
+        short = tp[len(TR):]
+        for m in names.machine_variants():
+            key = "T-SIB/ZXController::%s/%s" % (short, m)
+            try:
+                rd = explore(tp, tp, m)
+                ro = explore(items[tp], tp, m)
+            except Exception as e:
+                chk.undecided_(key, "could not explore: %s" % e)
+                continue
+            if len(rd) != 1 or rd[0].outcome != "return" or not ro or any(r.outcome != "return" for r in ro):
+                chk.undecided_(key, "provided body has %d paths / override outcomes %s" % (len(rd), sorted(set(r.outcome for r in ro))))
+                continue
+            want = trace_of(rd[0])
+            for r in ro:
+                got = trace_of(r)
+                same = len(got) == len(want) and all(g[0] == w_[0] and len(g[1]) == len(w_[1]) and all(
+                    (x is y) or (isinstance(x, T) and isinstance(y, T) and tm.equiv(x, y) is True) for x, y in zip(g[1], w_[1])) for g, w_ in zip(got, want))
+                retsame = (r.ret is rd[0].ret) or (isinstance(r.ret, T) and isinstance(rd[0].ret, T) and tm.equiv(r.ret, rd[0].ret) is True) or \
+                    (not isinstance(r.ret, T) and not isinstance(rd[0].ret, T))
+                chk.check(same and retsame, key,
+                          "ZXController overrides the provided bus method %s and, on the path %s, performs %s where the trait's body performs %s: "
+                          "the CPU's documented bus cycles no longer reach the machine as the required methods implement them" % (
+                              short, [tm.show(c[1])[:60] for c in r.pc if c[0] in ("eq", "ne") and isinstance(c[1], T)][-2:],
+                              [(g[0].split("::")[-1], [tm.show(x) if isinstance(x, T) else str(x) for x in g[1]]) for g in got],
+                              [(g[0].split("::")[-1], [tm.show(x) if isinstance(x, T) else str(x) for x in g[1]]) for g in want]))
+                chk.count("bus-override-paths")
+    chk.sample({"provided_bus_methods": [p[len(TR):] for p in provided], "overridden_by_controller": [p[len(TR):] for p in overridden]})
